@@ -492,6 +492,33 @@ fn constraint_edges(ctx: &Ctx) -> Vec<(usize, usize)> {
     v
 }
 
+/// extent of the vertex set over its smallest non-zero vertex distance is at most `limit`
+/// (resolving encroachment alone then needs few Steiner points)
+fn aspect_ok(ctx: &Ctx, limit: f64) -> bool {
+    let tag = ctx.tri.tag();
+    let nv = ctx.tri.nv();
+    if nv > 60 {
+        return false;
+    }
+    let pts: Vec<(f64, f64)> = (0..nv)
+        .map(|i| {
+            let p = ctx.tri.pos_bits(i);
+            (val(tag, p.0), val(tag, p.1))
+        })
+        .collect();
+    let (mut ext, mut dmin) = (0f64, f64::MAX);
+    for i in 0..nv {
+        for j in 0..i {
+            let d = ((pts[i].0 - pts[j].0).powi(2) + (pts[i].1 - pts[j].1).powi(2)).sqrt();
+            ext = ext.max(d);
+            if d > 0.0 {
+                dmin = dmin.min(d);
+            }
+        }
+    }
+    ext.is_finite() && dmin < f64::MAX && ext / dmin <= limit
+}
+
 /// the mid point or a quarter point of a random existing edge
 fn edge_point(rng: &mut Rng, ctx: &Ctx) -> (f64, f64) {
     let tag = ctx.tri.tag();
@@ -1397,7 +1424,7 @@ pub fn history(mode: &str, idx: u64, rng: &mut Rng, thorough: bool, timeout_ms: 
             let mut budget = if rng.chance(600) { rng.pick(&[0u64, 1, 2, 3, 5, 10, 50, 400]).to_string() } else { s("-") };
             // "unlimited" budgets (usize::MAX and just below): only where refinement stops by itself
             // after a few vertices (angle limit 0, no area limit: only encroachment is resolved)
-            if angle == format!("d{:016x}", 0f64.to_bits()) && mx == "-" && rng.chance(500) {
+            if angle == format!("d{:016x}", 0f64.to_bits()) && mx == "-" && rng.chance(500) && aspect_ok(&ctx, 32.0) {
                 budget = rng.pick(&[u64::MAX, u64::MAX - 2]).to_string();
             }
             let keep = if rng.chance(if region { 600 } else { 300 }) { "1" } else { "0" };
